@@ -114,6 +114,11 @@ type VC struct {
 	fieldCodes map[string]int
 	statics    map[string]int
 	lemmaName  string
+	panicStates []*State
+	panicSites  []string
+	panicking   bool
+	recovered   Term
+	topFrame    *Frame
 }
 
 func newVC(eng *Engine, fn *ssa.Function, con *Contract, known map[string]string, order []string) *VC {
@@ -500,6 +505,10 @@ func (vc *VC) initialState() *State {
 	st := &State{reach: "true", heap: map[string]Term{}}
 	vc.heapVar("CLK", "Int")
 	for _, name := range vc.heapOrder {
+		if strings.HasPrefix(name, "DF_") {
+			st.heap[name] = "false"
+			continue
+		}
 		st.heap[name] = vc.declConst(name+"@0", vc.heapSort[name])
 	}
 	return st
@@ -512,7 +521,7 @@ func (vc *VC) havocAll(st *State, why string) {
 		if name == "CLK" {
 			continue
 		}
-		if strings.HasPrefix(name, "Gh_") {
+		if strings.HasPrefix(name, "Gh_") || strings.HasPrefix(name, "DF_") {
 			continue
 		}
 		st.heap[name] = vc.freshConst(name, vc.heapSort[name])
